@@ -48,6 +48,34 @@ the `Display` implementation. -/
 def collectStr (pass1 pass2 : List (List Byte)) : List Chunk :=
   .extend (encVarint 64 (pass1.map List.length).sum) :: pass2.map .extend
 
+/-- pass 2 of `collect_str` over a flavour: every `write_str` piece goes to `try_extend`; the
+`FmtWriter` maps any flavour error to `fmt::Error`, which stops the formatter and comes out as
+`CollectStrError` (a Rust panic stays a panic). -/
+def collectPieces {σ ω} (F : Flavor σ ω) : σ → List (List Byte) → σ × Option Err
+  | s, [] => (s, none)
+  | s, p :: ps =>
+    match F.tryExtend s p with
+    | (s', none) => collectPieces F s' ps
+    | (s', some .panic) => (s', some .panic)
+    | (s', some _) => (s', some .collectStr)
+
+/-- mirrors `serialize_with_flavor(&DisplayValue, flavour)` for a value serialised through
+`collect_str` whose `Display` implementation writes `pieces` (the same on both passes):
+the byte total as a `usize` varint (`try_push_varint_usize`, an error mapped to
+`SerializeBufferFull`), then the pieces, then `finalize`. -/
+def collectStrWith {σ ω} (F : Flavor σ ω) (s0 : σ) (pieces : List (List Byte)) : σ × R ω :=
+  match F.tryExtend s0 (encVarint 64 (pieces.map List.length).sum) with
+  | (s, some .panic) => (s, .error .panic)
+  | (s, some _) => (s, .error .bufferFull)
+  | (s, none) =>
+    match collectPieces F s pieces with
+    | (s', some e) => (s', .error e)
+    | (s', none) =>
+      match F.finalize s' with
+      | (s'', .ok out) => (s'', .ok out)
+      | (s'', .error .panic) => (s'', .error .panic)
+      | (s'', .error _) => (s'', .error .bufferFull)
+
 end Postcard
 
 namespace Postcard
